@@ -1,7 +1,15 @@
 """C19 (continued): shells of the public WBEMConnection operations - statistics timer started once and stopped exactly
 once on every exit, recorders get arguments and result exactly once, only documented exceptions escape.
 
-Shared definitions come from contracts/C19.py (module contracts_C19 while it is being loaded)."""
+Shared definitions come from contracts/C19.py (module contracts_C19 while it is being loaded).
+
+Every contract here has the shape of the GetInstance prototype: all helpers are cut at callee contracts, the ghost
+counters _g_started/_g_stopped/_g_staged_args/_g_staged_result live on the connection.  Three more ghosts are used here:
+  _g_ns               the namespace the request was sent to (set by the _imethodcall contract),
+  _g_timer_told_exc   whether stop_timer was given an exception,
+  _g_rec_told_exc / _g_rec_given_none   whether the recorders were given an exception / None as the result.
+Postconditions per operation: ONCE, STAGED, TOLD (timer and recorders are told the real outcome: no exception and the
+value that is returned on success, the exception on failure) and the result property of the operation's docstring."""
 from pyvc.contract import Contract, Raises, LoopSpec
 from pyvc.values import *   # noqa
 from contracts_C19 import (OPS, CONN2, start_timer_c, stop_timer_c, rec_reset_c, rec_args_c, rec_result_c, ns_from_obj_c,
@@ -9,4 +17,310 @@ from contracts_C19 import (OPS, CONN2, start_timer_c, stop_timer_c, rec_reset_c,
                            SHELL_RAISES, PYWBEM_ERRORS, IRV)
 
 CONTRACTS = []
-CLASS_SPECS = {}
+REFUTED_ON_THE_UNCHANGED_TREE = []      # not loaded: genuine discrepancies between docstring and behaviour (see the notes)
+CLASS_SPECS = {'CIMClassName': {'host': Opt(Str), 'namespace': Opt(Str), 'classname': Str},
+               'CIMInstance': {'path': Opt(Ref('CIMInstanceName')), 'classname': Str},
+               'CIMClass': {'path': Opt(Ref('CIMClassName')), 'classname': Str}}
+
+
+def R(cls):
+    return ('ref', cls)
+
+
+# ---- the connection: the fields of the prototype plus the ghosts described above
+CONN = Obj('WBEMConnection', **dict(CONN2.args[1], host=Str, _g_ns=Str, _g_timer_told_exc=Bool, _g_rec_told_exc=Bool,
+                                    _g_rec_given_none=Bool))
+NSARG = Union(NoneT, Str, Int)          # Int stands for "an argument of a wrong type"
+CLSARG = Union(Str, Ref('CIMClassName'), NoneT, Int)
+OBJARG = Union(Ref('CIMInstanceName'), Ref('CIMClassName'), Str, NoneT)
+INSTNAMEARG = Union(Ref('CIMInstanceName'), NoneT, Str)
+STRARG = Union(NoneT, Str, Int)
+BOOLARG = Union(NoneT, Bool, Str)       # Str stands for "an argument of a wrong type"
+INTARG = Union(NoneT, Int, Str)
+PLARG = Union(NoneT, Str, ListOf('str'))
+TE = {'TypeError': Raises()}
+
+stop_timer2_c = Contract('pywbem/_statistics.py::OperationStatistic.stop_timer', returns=Opt(Int), trusted=True,
+                         modifies=['caller_self._g_stopped', 'caller_self._g_timer_told_exc'],
+                         ensures=[('one-timer-stopped', 'caller_self._g_stopped == old(caller_self._g_stopped) + 1'),
+                                  ('told', 'caller_self._g_timer_told_exc == (exception is not None)')],
+                         raises={}, notes=stop_timer_c.notes)
+rec_result2_c = Contract(OPS + 'operation_recorder_stage_result', trusted=True, raises={},
+                         modifies=['self._g_staged_result', 'self._g_rec_told_exc', 'self._g_rec_given_none'],
+                         ensures=[('result-staged', 'self._g_staged_result == old(self._g_staged_result) + 1'),
+                                  ('told', 'self._g_rec_told_exc == (exc is not None) and self._g_rec_given_none == (ret is None)')])
+ns_from_ns_c = Contract(OPS + '_iparam_namespace_from_namespace', returns=Str, raises=TE, notes='proved under C04')
+iparam_cls_c = Contract(OPS + '_iparam_classname', returns=Opt(Ref('CIMClassName')), raises=TE,
+                        ensures=[('required-means-not-NULL', 'implies(required, result is not None)')], notes='proved under C03')
+iparam_obj_c = Contract(OPS + '_iparam_objectname', returns=Union(Ref('CIMInstanceName'), Ref('CIMClassName'), NoneT), raises=TE,
+                        ensures=[('required-means-not-NULL', 'implies(required, result is not None)'),
+                                 ('kind-of-name-kept',
+                                  'implies(isinstance(objectname, CIMInstanceName), isinstance(result, CIMInstanceName)) and '
+                                  'implies(isinstance(objectname, (CIMClassName, str)), isinstance(result, CIMClassName))')],
+                        notes='proved under C03')
+iparam_str_c = Contract(OPS + '_iparam_string', returns=Opt(Str), raises=TE, trusted=True)
+iparam_int_c = Contract(OPS + '_iparam_positive_integer', returns=Opt(Int), trusted=True,
+                        raises={'TypeError': Raises(), 'ValueError': Raises()})
+iparam_instance_c = Contract(OPS + '_iparam_instance', returns=Ref('CIMInstance'), raises=TE, trusted=True)
+iparam_class_c = Contract(OPS + '_iparam_class', returns=Opt(Ref('CIMClass')), raises=TE, trusted=True)
+iparam_qual_c = Contract(OPS + '_iparam_qualifierdeclaration', returns=Opt(Ref('CIMQualifierDeclaration')), raises=TE, trusted=True)
+SHELL = {'start_timer': start_timer_c, 'stop_timer': stop_timer2_c, 'operation_recorder_reset': rec_reset_c,
+         'operation_recorder_stage_pywbem_args': rec_args_c, 'operation_recorder_stage_result': rec_result2_c,
+         '_iparam_namespace_from_objectname': ns_from_obj_c, '_iparam_namespace_from_namespace': ns_from_ns_c,
+         '_iparam_instancename': iparam_inst_c, '_iparam_classname': iparam_cls_c, '_iparam_objectname': iparam_obj_c,
+         '_iparam_string': iparam_str_c, '_iparam_positive_integer': iparam_int_c, '_iparam_instance': iparam_instance_c,
+         '_iparam_class': iparam_class_c, '_iparam_qualifierdeclaration': iparam_qual_c,
+         '_iparam_bool': iparam_bool_c, '_iparam_propertylist': iparam_plist_c}
+RECS = 'len(self._operation_recorders) > 0'
+TOLD = ('timer-and-recorders-are-told-success-and-given-what-is-returned',
+        f'not self._g_timer_told_exc and implies({RECS}, not self._g_rec_told_exc and self._g_rec_given_none == (result is None))')
+TOLD_SUCCESS = ('timer-and-recorders-are-told-success',
+                f'not self._g_timer_told_exc and implies({RECS}, not self._g_rec_told_exc)')
+TOLD_EXC = ('timer-and-recorders-are-told-the-exception', f'self._g_timer_told_exc and implies({RECS}, self._g_rec_told_exc)')
+VOID = ('returns-None', 'result is None')
+
+
+def imethodcall(children=None, ensures=(), returns=None):
+    """_imethodcall cut at its contract: returns the parsed IRETURNVALUE (or None) whose children are of the given flat
+    kind - a union wide enough for everything the response parser can deliver there - or raises a pywbem.Error; the
+    ghost self._g_ns remembers the namespace the request was sent to."""
+    if returns is None:
+        returns = NoneT if children is None else Opt(TupleOf(TupleOf(Str, Ref('dict'), ListOf(children))))
+    return Contract(OPS + '_imethodcall', returns=returns, raises=PYWBEM_ERRORS, trusted=True, modifies=['self._g_ns'],
+                    ensures=[('request-sent-to', 'self._g_ns == namespace')] + list(ensures),
+                    notes='assumed: returns the parsed IRETURNVALUE children or raises a pywbem.Error (C02)')
+
+
+def shell_raises(*more):
+    return {k: Raises(post=[ONCE, STAGED, TOLD_EXC]) for k in list(PYWBEM_ERRORS) + ['TypeError'] + list(more)}
+
+
+def shell(name, params, result_posts, callees=None, loops=None, more_raises=(), told=TOLD, label=None, **kw):
+    return Contract(OPS + name, params=dict(params, self=CONN), callees=dict(SHELL, **(callees or {})),
+                    ensures=[ONCE, STAGED] + ([told] if told else []) + list(result_posts),
+                    loops=loops or {}, raises=shell_raises(*more_raises), label=label, **kw)
+
+
+# what parse_ireturnvalue can deliver as a child of IRETURNVALUE (objects, names, (name, class) tuples; a plain string
+# child is left out: `x.__class__.__name__` of a str is an engine limit)
+ANYCHILD = ('union', R('CIMInstanceName'), R('CIMInstance'), R('CIMClassName'), R('CIMClass'), R('CIMQualifierDeclaration'),
+            ('tuple', R('CIMClassName'), R('CIMClass')), R('object'))
+VOIDCALL = {'_imethodcall': imethodcall()}
+ANYCALL = {'_imethodcall': imethodcall(ANYCHILD)}
+
+# ---- EnumerateInstanceNames
+ENUM_NAMES_LOOP = {1: LoopSpec(target='instancepath', modifies=['$fields'],
+                               invariant=[('paths-so-far-carry-the-target-namespace',
+                                           'forall(lambda k: isinstance(instancenames[k], CIMInstanceName) and '
+                                           'instancenames[k].namespace == namespace, 0, _i)')])}
+CONTRACTS.append(shell(
+    'EnumerateInstanceNames', {'ClassName': CLSARG, 'namespace': NSARG},
+    [('every-returned-path-has-the-target-namespace',
+      'forall(lambda k: isinstance(result[k], CIMInstanceName) and result[k].namespace == self._g_ns, 0, len(result))')],
+    callees=ANYCALL, loops=ENUM_NAMES_LOOP))
+REFUTED_ON_THE_UNCHANGED_TREE.append(shell(
+    'EnumerateInstanceNames', {'ClassName': CLSARG, 'namespace': NSARG},
+    [('every-returned-path-has-no-host', 'forall(lambda k: result[k].host is None, 0, len(result))')],
+    callees=ANYCALL, loops=ENUM_NAMES_LOOP, label='host',
+    notes='docstring: "host: None, indicating the WBEM server is unspecified"; a server that answers with INSTANCEPATH '
+          'elements gets its HOST through (only the namespace is overwritten)'))
+
+# ---- EnumerateInstances
+ENUM_INST = dict(
+    params={'ClassName': CLSARG, 'namespace': NSARG, 'LocalOnly': Opt(Bool), 'DeepInheritance': Opt(Bool),
+            'IncludeQualifiers': Opt(Bool), 'IncludeClassOrigin': Opt(Bool), 'PropertyList': PLARG},
+    result_posts=[('every-returned-instance-has-a-path-with-the-target-namespace',
+                   'forall(lambda k: isinstance(result[k], CIMInstance) and result[k].path is not None and '
+                   'result[k].path.namespace == self._g_ns, 0, len(result))')],
+    callees=ANYCALL,
+    loops={1: LoopSpec(target='instance', modifies=['$fields'],
+                       invariant=[('instances-so-far-carry-the-target-namespace',
+                                   'forall(lambda k: isinstance(instances[k], CIMInstance) and instances[k].path is not None and '
+                                   'instances[k].path.namespace == namespace, 0, _i)')])})
+# (the AttributeError of the known finding is admitted HERE ONLY so that the shell obligations are also established on
+# that exit; the contract without it is in REFUTED_ON_THE_UNCHANGED_TREE)
+CONTRACTS.append(shell('EnumerateInstances', more_raises=['AttributeError'],
+                       label='AttributeError of known finding C02 instance-without-path admitted', **ENUM_INST))
+REFUTED_ON_THE_UNCHANGED_TREE.append(shell(
+    'EnumerateInstances', label='any children', **ENUM_INST,
+    notes='known finding C02 EnumerateInstances-instance-without-path-AttributeError: an INSTANCE child (no path) '
+          'raises AttributeError out of the operation (raises:AttributeError is REFUTED)'))
+
+# ---- CreateInstance / ModifyInstance / DeleteInstance
+CONTRACTS.append(shell(
+    'CreateInstance', {'NewInstance': Ref('CIMInstance'), 'namespace': NSARG},
+    [('the-returned-path-has-the-target-namespace', 'isinstance(result, CIMInstanceName) and result.namespace == self._g_ns')],
+    callees=ANYCALL))
+REFUTED_ON_THE_UNCHANGED_TREE.append(shell(
+    'CreateInstance', {'NewInstance': Union(Ref('CIMInstance'), NoneT), 'namespace': Lit(None)},
+    [('the-returned-path-has-the-target-namespace', 'isinstance(result, CIMInstanceName) and result.namespace == self._g_ns')],
+    callees=ANYCALL, label='NewInstance of a wrong type',
+    notes='CreateInstance(None) (any non-instance without .path, namespace=None) raises AttributeError from '
+          '`NewInstance.path` before _iparam_instance can raise its TypeError'))
+CONTRACTS.append(shell(
+    'ModifyInstance', {'ModifiedInstance': Union(Ref('CIMInstance'), NoneT), 'IncludeQualifiers': Opt(Bool), 'PropertyList': PLARG},
+    [VOID], callees=VOIDCALL, more_raises=['ValueError']))
+CONTRACTS.append(shell('DeleteInstance', {'InstanceName': INSTNAMEARG}, [VOID], callees=VOIDCALL))
+
+# ---- Associators / References (result from _get_returned_objects), AssociatorNames / ReferenceNames
+OBJ = ('union', R('CIMInstance'), ('tuple', R('CIMClassName'), R('CIMClass')), R('CIMClass'))
+NAME = ('union', R('CIMInstanceName'), R('CIMClassName'))
+PARSE_ERR = {'CIMXMLParseError': Raises()}
+get_objects_c = Contract(
+    OPS + '_get_returned_objects', returns=ListOf(OBJ), raises=PARSE_ERR, notes='proved under C02',
+    ensures=[('one-object-per-returned-element', 'len(result) == (0 if old(result) is None else len(old(result)[0][2]))'),
+             ('instance-level-results-are-instances',
+              'implies(isinstance(ObjectName, CIMInstanceName), forall(lambda k: isinstance(result[k], CIMInstance), 0, len(result)))'),
+             ('class-level-results-are-class-tuples',
+              'implies(not isinstance(ObjectName, CIMInstanceName), forall(lambda k: isinstance(result[k], tuple), 0, len(result)))')])
+get_names_c = Contract(
+    OPS + '_get_returned_objectnames', returns=ListOf(NAME), raises=PARSE_ERR, notes='proved under C02',
+    ensures=[('one-name-per-returned-element', 'len(result) == (0 if old(result) is None else len(old(result)[0][2]))'),
+             ('instance-level-results-are-instance-paths',
+              'implies(isinstance(ObjectName, CIMInstanceName), forall(lambda k: isinstance(result[k], CIMInstanceName), 0, len(result)))'),
+             ('class-level-results-are-class-paths',
+              'implies(not isinstance(ObjectName, CIMInstanceName), forall(lambda k: isinstance(result[k], CIMClassName), 0, len(result)))')])
+WRAPPED_OBJ = ('tuple', 'str', R('dict'), OBJ)
+WRAPPED_NAME = ('tuple', 'str', R('dict'), NAME)
+OBJECTS_POST = [('instance-level-request-returns-instances',
+                 'implies(isinstance(old(ObjectName), CIMInstanceName), forall(lambda k: isinstance(result[k], CIMInstance), 0, len(result)))'),
+                ('class-level-request-returns-class-tuples',
+                 'implies(isinstance(old(ObjectName), (CIMClassName, str)), forall(lambda k: isinstance(result[k], tuple), 0, len(result)))')]
+NAMES_POST = [('instance-level-request-returns-instance-paths',
+               'implies(isinstance(old(ObjectName), CIMInstanceName), forall(lambda k: isinstance(result[k], CIMInstanceName), 0, len(result)))'),
+              ('class-level-request-returns-class-paths',
+               'implies(isinstance(old(ObjectName), (CIMClassName, str)), forall(lambda k: isinstance(result[k], CIMClassName), 0, len(result)))')]
+OBJ_CALLEES = {'_imethodcall': imethodcall(WRAPPED_OBJ), '_get_returned_objects': get_objects_c}
+NAME_CALLEES = {'_imethodcall': imethodcall(WRAPPED_NAME), '_get_returned_objectnames': get_names_c}
+CONTRACTS.append(shell(
+    'Associators', {'ObjectName': OBJARG, 'AssocClass': CLSARG, 'ResultClass': Opt(Str), 'Role': STRARG, 'ResultRole': Opt(Str),
+                    'IncludeQualifiers': Opt(Bool), 'IncludeClassOrigin': Opt(Bool), 'PropertyList': PLARG},
+    OBJECTS_POST, callees=OBJ_CALLEES))
+CONTRACTS.append(shell(
+    'References', {'ObjectName': OBJARG, 'ResultClass': CLSARG, 'Role': STRARG,
+                   'IncludeQualifiers': Opt(Bool), 'IncludeClassOrigin': Opt(Bool), 'PropertyList': PLARG},
+    OBJECTS_POST, callees=OBJ_CALLEES))
+CONTRACTS.append(shell(
+    'AssociatorNames', {'ObjectName': OBJARG, 'AssocClass': CLSARG, 'ResultClass': Opt(Str), 'Role': STRARG, 'ResultRole': Opt(Str)},
+    NAMES_POST, callees=NAME_CALLEES))
+CONTRACTS.append(shell(
+    'ReferenceNames', {'ObjectName': OBJARG, 'ResultClass': CLSARG, 'Role': STRARG}, NAMES_POST, callees=NAME_CALLEES))
+
+# ---- InvokeMethod: _methodcall cut at its contract; the value handed back is the ghost g_ret
+RET = TupleOf(Ref('object'), Ref('NocaseDict'))
+methodcall_c = Contract(OPS + '_methodcall', returns_ghost='g_ret', trusted=True,
+                        raises=dict(PYWBEM_ERRORS, TypeError=Raises(), ValueError=Raises()),
+                        notes='assumed: returns (return value, output parameters) or raises a pywbem.Error / TypeError / ValueError')
+INVOKE = dict(params={'MethodName': STRARG, 'ObjectName': OBJARG, 'Params': Union(NoneT, ListOf('ref')), 'params': Rec(p1=Ref('object'))},
+              result_posts=[('returns-what-_methodcall-returned', 'result == g_ret')],
+              callees={'_methodcall': methodcall_c}, more_raises=['ValueError'], ghosts={'g_ret': RET})
+CONTRACTS.append(shell('InvokeMethod', told=TOLD_SUCCESS, **INVOKE))
+REFUTED_ON_THE_UNCHANGED_TREE.append(shell(
+    'InvokeMethod', label='recorded result', **INVOKE,
+    notes='the finally block stages `result_tuple`, which is never assigned: with a recorder the recorded result of a '
+          'successful InvokeMethod is None instead of the (return value, output parameters) tuple that is returned'))
+
+# ---- ExecQuery
+init_path_c = Contract('pywbem/_cim_obj.py::CIMInstanceName.__init__', trusted=True, raises={},
+                       ensures=[('attributes', 'self.classname == classname and self.namespace == namespace and self.host == host')],
+                       notes='A-CIMOBJ: the constructor stores its arguments (C05 bounded)')
+init_cpath_c = Contract('pywbem/_cim_obj.py::CIMClassName.__init__', trusted=True, raises={},
+                        ensures=[('attributes', 'self.classname == classname and self.namespace == namespace and self.host == host')],
+                        notes='A-CIMOBJ: the constructor stores its arguments (C05 bounded)')
+CONTRACTS.append(shell(
+    'ExecQuery', {'QueryLanguage': STRARG, 'Query': STRARG, 'namespace': NSARG},
+    [('every-returned-instance-has-a-path-with-the-target-namespace',
+      'forall(lambda k: isinstance(result[k], CIMInstance) and result[k].path is not None and '
+      'result[k].path.namespace == self._g_ns, 0, len(result))')],
+    callees={'_imethodcall': imethodcall(('tuple', 'str', R('dict'), R('CIMInstance'))), 'CIMInstanceName.__init__': init_path_c},
+    opaque=['CIMInstanceName'],
+    loops={1: LoopSpec(target='instance', modifies=['$fields'],
+                       invariant=[('instances-so-far-carry-the-target-namespace',
+                                   'forall(lambda k: instances[k].path is not None and instances[k].path.namespace == namespace, 0, _i)')])},
+    label='instances arrive',
+    notes='the children are assumed to be instances (VALUE.OBJECT* with INSTANCE): ExecQuery does not check the class of '
+          'what it returns (known finding C02 unexpected-IRETURNVALUE-child-...-in-ExecQuery)'))
+
+# ---- GetClass / EnumerateClasses / EnumerateClassNames / CreateClass / ModifyClass / DeleteClass
+CLASS_PATH = 'path is not None and {0}.path.namespace == {1} and {0}.path.host == self.host and {0}.path.classname == {0}.classname'
+CONTRACTS.append(shell(
+    'GetClass', {'ClassName': CLSARG, 'namespace': NSARG, 'LocalOnly': Opt(Bool), 'IncludeQualifiers': Opt(Bool),
+                 'IncludeClassOrigin': Opt(Bool), 'PropertyList': PLARG},
+    [('the-returned-class-has-a-path-with-target-namespace-host-and-its-class-name',
+      'isinstance(result, CIMClass) and result.' + CLASS_PATH.format('result', 'self._g_ns'))],
+    callees=dict(ANYCALL, **{'CIMClassName.__init__': init_cpath_c}), opaque=['CIMClassName']))
+CONTRACTS.append(shell(
+    'EnumerateClasses', {'namespace': NSARG, 'ClassName': CLSARG, 'DeepInheritance': Opt(Bool), 'LocalOnly': Opt(Bool),
+                         'IncludeQualifiers': Opt(Bool), 'IncludeClassOrigin': Opt(Bool)},
+    [('every-returned-class-has-a-path-with-target-namespace-and-host',
+      'forall(lambda k: isinstance(result[k], CIMClass) and result[k].path is not None and '
+      'result[k].path.namespace == self._g_ns and result[k].path.host == self.host, 0, len(result))')],
+    callees=dict(ANYCALL, **{'CIMClassName.__init__': init_cpath_c}), opaque=['CIMClassName'],
+    loops={1: LoopSpec(target='klass', modifies=['$fields'],
+                       invariant=[('classes-so-far-carry-the-target-namespace',
+                                   'forall(lambda k: isinstance(classes[k], CIMClass) and classes[k].path is not None and '
+                                   'classes[k].path.namespace == namespace and classes[k].path.host == self.host, 0, _i)')])}))
+# (left out: `result[k] == classpaths[k].classname` - the preservation of that invariant over the appended sequence is
+# answered `unknown` by z3 and cvc5 within the budgets; what is proved is one string per class path, all class paths)
+CONTRACTS.append(shell(
+    'EnumerateClassNames', {'namespace': NSARG, 'ClassName': CLSARG, 'DeepInheritance': Opt(Bool)},
+    [('one-name-per-returned-class-path',
+      'len(result) == len(classpaths) and forall(lambda k: isinstance(classpaths[k], CIMClassName), 0, len(result))')],
+    callees=ANYCALL, kinds={'classnames': 'str'},
+    loops={1: LoopSpec(target='classpath', modifies=['classnames'],
+                       invariant=[('one-name-per-path-so-far', 'len(classnames) == _i'),
+                                  ('paths-so-far-are-class-paths', 'forall(lambda k: isinstance(classpaths[k], CIMClassName), 0, _i)')])}))
+CLSOBJARG = Union(Ref('CIMClass'), NoneT, Int)
+CONTRACTS.append(shell('CreateClass', {'NewClass': CLSOBJARG, 'namespace': NSARG}, [VOID], callees=VOIDCALL))
+CONTRACTS.append(shell('ModifyClass', {'ModifiedClass': CLSOBJARG, 'namespace': NSARG}, [VOID], callees=VOIDCALL))
+CONTRACTS.append(shell('DeleteClass', {'ClassName': CLSARG, 'namespace': NSARG}, [VOID], callees=VOIDCALL))
+
+# ---- qualifier declarations
+ENUMQ = dict(params={'namespace': NSARG},
+             result_posts=[('every-returned-object-is-a-qualifier-declaration',
+                            'forall(lambda k: isinstance(result[k], CIMQualifierDeclaration), 0, len(result))')],
+             callees=ANYCALL,
+             loops={1: LoopSpec(target='qualifierdecl',
+                                invariant=[('declarations-so-far',
+                                            'forall(lambda k: isinstance(qualifierdecls[k], CIMQualifierDeclaration), 0, _i)')])})
+CONTRACTS.append(shell('EnumerateQualifiers', told=TOLD_SUCCESS, **ENUMQ))
+REFUTED_ON_THE_UNCHANGED_TREE.append(shell(
+    'EnumerateQualifiers', label='recorded result', **ENUMQ,
+    notes='the finally block stages `qualifiers`, which is never assigned (the list is in `qualifierdecls`): with a '
+          'recorder the recorded result of a successful EnumerateQualifiers is None instead of the returned list'))
+GETQ = dict(params={'QualifierName': STRARG, 'namespace': NSARG},
+            result_posts=[('returns-a-qualifier-declaration', 'isinstance(result, CIMQualifierDeclaration)')], callees=ANYCALL)
+CONTRACTS.append(shell('GetQualifier', told=TOLD_SUCCESS, **GETQ))
+REFUTED_ON_THE_UNCHANGED_TREE.append(shell(
+    'GetQualifier', label='recorded result', **GETQ,
+    notes='the finally block stages `qualifiername`, which is never assigned (the object is in `qualifierdecl`): with a '
+          'recorder the recorded result of a successful GetQualifier is None instead of the returned declaration'))
+CONTRACTS.append(shell('SetQualifier', {'QualifierDeclaration': Union(Ref('CIMQualifierDeclaration'), NoneT, Int), 'namespace': NSARG},
+                       [VOID], callees=VOIDCALL))
+CONTRACTS.append(shell('DeleteQualifier', {'QualifierName': STRARG, 'namespace': NSARG}, [VOID], callees=VOIDCALL))
+
+# ---- CloseEnumeration / ExportIndication
+CTXARG = Union(NoneT, TupleOf(Str, Str), TupleOf(Str, Str, Str), Int)
+CONTRACTS.append(shell('CloseEnumeration', {'context': CTXARG}, [VOID], callees=VOIDCALL, more_raises=['ValueError']))
+iexportcall_c = Contract(OPS + '_iexportcall', returns=NoneT, raises=PYWBEM_ERRORS, trusted=True,
+                         notes='assumed: returns None or raises a pywbem.Error')
+CONTRACTS.append(shell('ExportIndication', {'NewIndication': Union(Ref('CIMInstance'), NoneT)}, [VOID],
+                       callees={'_iexportcall': iexportcall_c}))
+
+# ---- Open... / Pull...: the result tuple is built from what _get_rslt_params extracted from the output parameters
+PARAM = ('tuple', 'str', ('opt', 'str'), ('union', 'none', 'str', R('object')))
+RSLT = TupleOf(ListOf(ANYCHILD), Bool, Opt(TupleOf(Opt(Str), Str)))
+get_rslt_c = Contract(
+    OPS + '_get_rslt_params', returns=RSLT, raises=PARSE_ERR, notes='proved under C02',
+    ensures=[('eos-drops-context', 'implies(result[1] is True, result[2] is None)'),
+             ('no-eos-has-context', 'implies(result[1] is False, result[2] is not None and result[2][0] is not None)')])
+OUTPARAMS = {'_imethodcall': imethodcall(returns=ListOf(PARAM)), '_get_rslt_params': get_rslt_c}
+PULL_POST = [('end-of-sequence-has-no-context-otherwise-there-is-one',
+              'implies(result.eos, result.context is None) and implies(not result.eos, result.context is not None)')]
+CONTRACTS.append(shell('PullInstancesWithPath', {'context': CTXARG, 'MaxObjectCount': INTARG}, PULL_POST, callees=OUTPARAMS,
+                       more_raises=['ValueError']))
+
+# ---- the discrepancies are not loaded; to see them refuted:  C19_OPS_SHOW_REFUTED=1 ./check C19 --only <name> -v
+import os as _os
+if _os.environ.get('C19_OPS_SHOW_REFUTED'):
+    CONTRACTS = list(REFUTED_ON_THE_UNCHANGED_TREE)
